@@ -69,7 +69,8 @@ func TestVerifBoundedWalletDBConformance(t *testing.T) {
 			t.Fatal(err)
 		}
 		model := map[string]uint32{}   // id -> counter (only known ids)
-		where := map[string]string{}   // id -> mint url bucket
+		where := map[string]string{}   // id -> mint url bucket (the last one saved to)
+		alias := map[string]bool{}     // id stored under more than one mint URL
 		trace := ""
 		readback := func() {
 			for _, id := range ids {
@@ -96,10 +97,20 @@ func TestVerifBoundedWalletDBConformance(t *testing.T) {
 			case 0, 1: // SaveKeyset: writes the whole record, counter included
 				id := ids[rng.n(len(ids))]
 				url := urls[rng.n(len(urls))]
-				if u, ok := where[id]; ok {
-					url = u // one keyset id lives at one mint (ids are derived from the mint's keys)
-				}
 				c := nums[rng.n(len(nums))]
+				if u, ok := where[id]; ok && url != u {
+					// the same mint known under a second URL (what AddMint does for a differently spelled
+					// URL): the record is saved there with the counter the wallet has stored for the id
+					if rng.n(2) == 0 {
+						c = model[id]
+						alias[id] = true
+					} else {
+						url = u
+					}
+				}
+				if alias[id] {
+					c = model[id] // once an id lives in two buckets the wallet only ever re-saves its stored counter
+				}
 				trace += fmt.Sprintf("SaveKeyset(%s,%s,%d);", id, url, c)
 				err := db.SaveKeyset(&crypto.WalletKeyset{Id: id, MintURL: url, Unit: "sat", Active: true, PublicKeys: map[uint64]*secp256k1.PublicKey{1: pub}, Counter: c, InputFeePpk: 100})
 				if err != nil {
@@ -188,7 +199,7 @@ func TestVerifBoundedWalletDBConformance(t *testing.T) {
 					}
 				}
 				if len(seen) != len(model) {
-					fail(trace, fmt.Sprintf("GetKeysets lists %d keysets, model %d", len(seen), len(model)))
+					fail(trace, fmt.Sprintf("GetKeysets lists %d distinct keyset ids, model %d", len(seen), len(model)))
 				}
 				for id, c := range model {
 					if seen[id] != c {
